@@ -39,6 +39,8 @@ type Auth struct {
 	Response  string
 	Opaque    string // 暂时没用
 	Stale     string // 暂时没用
+
+	challengeNonce string // server side: nonce of the last Digest challenge made by MakeAuthenticate
 }
 
 // ParseAuthorization 解析字段，server side使用
@@ -147,7 +149,8 @@ func (a *Auth) MakeAuthenticate(method string) string {
 	case AuthTypeBasic:
 		return fmt.Sprintf("%s realm=\"%s\"", method, base.LalRtspRealm)
 	case AuthTypeDigest:
-		return fmt.Sprintf("%s realm=\"%s\", nonce=\"%s\"", method, base.LalRtspRealm, a.nonce())
+		a.challengeNonce = a.nonce()
+		return fmt.Sprintf("%s realm=\"%s\", nonce=\"%s\"", method, base.LalRtspRealm, a.challengeNonce)
 	}
 	return ""
 }
@@ -160,6 +163,12 @@ func (a *Auth) CheckAuthorization(method, username, password string) bool {
 			return true
 		}
 	case AuthTypeDigest:
+		// The nonce must be the one we challenged this connection with, otherwise a response
+		// computed once (or sniffed) for a nonce of the client's choice would be valid forever.
+		if a.challengeNonce == "" || a.Nonce != a.challengeNonce {
+			return false
+		}
+
 		// The "response" field is computed as:
 		// md5(md5(<username>:<realm>:<password>):<nonce>:md5(<cmd>:<url>))
 
